@@ -312,6 +312,22 @@ Fixpoint bounded_s (n : snode) : bool :=
   | _ => false
   end.
 
+(* ---- the kind judgement: the (Boundedness, Ordering, Retries) type parameters every stream node
+   carries in the staged API, computed by the model and compared on every run, node by node, with
+   the `collection_kind` the real builder records in the IR dump ([chk_kinds_s] / [chk_kinds_b]).
+   Boundedness (true = Bounded): *)
+Fixpoint kbound (n : snode) : bool :=
+  match n with
+  | SSrc _ => false
+  | SIter _ => true
+  | SMap _ x | SFilter _ x | SFlatMap _ _ x | SFilterMap _ x | SInspect x | SWeaken x
+  | SEnumerate x | SUnique x | SAntiJoin x _ | SGen _ _ x | SDifference x _ | SPart _ _ x => kbound x
+  | SUnion _ _ => false                                  (* merge_unordered: Unbounded *)
+  | SJoin x _ | SCross x _ | SJoinHalf x _ => kbound x   (* the boundedness of the left side *)
+  end.
+(* Retries (true = ExactlyOnce): the modelled IR has no AtLeastOnce stream *)
+Definition kretry (n : snode) : bool := true.
+
 (* the Ordering type parameter (true = TotalOrder) *)
 Fixpoint ord (n : snode) : bool :=
   match n with
